@@ -684,10 +684,22 @@ def _nestable(outer, inner):
     return True
 
 
+QUICK_CORE_DROPPED = ("do.dn", "sel.log", "where.2d", "call.fun")
+#: the quick tier enumerates all ordered pairs over these 16 core templates only
+QUICK_PAIR_CORE = ("do.up", "do.while", "if.block", "if.elseif", "sel.single",
+                   "sel.mix", "sel.chr", "where.stmt", "where.stmtlb",
+                   "where.else", "where.modmask", "arr.bare", "int.sum",
+                   "call.reorder", "cb.print", "cb.goto")
+
+
 def statement_specs(tier):
     """Size-ordered list of (class, spec).  The quick list is a prefix-wise
     subset of the thorough list (same classes, thorough adds classes)."""
     core = _flag("c")
+    if tier == "quick":
+        # CPU budget of the quick tier: four core templates only take part in
+        # nests / sequences in the thorough tier
+        core = [k for k in core if k not in QUICK_CORE_DROPPED]
     mini = _flag("k")
     conts = [k for k in ORDER if TEMPLATES[k]["container"]]
     core_conts = [k for k in conts if k in core]
@@ -701,9 +713,10 @@ def statement_specs(tier):
         for inner in core:
             if _nestable(outer, inner):
                 out.append(("n2core", {"host": "m", "items": [[outer, inner]]}))
-    # size 2: core x core
-    for one in core:
-        for two in core:
+    # size 2: core x core (quick: over the pair core only)
+    pair_core = [k for k in core if tier != "quick" or k in QUICK_PAIR_CORE]
+    for one in pair_core:
+        for two in pair_core:
             out.append(("s2core", {"host": "m", "items": [[one, None], [two, None]]}))
     if tier == "thorough":
         seen = {prog_key(s) for _c, s in out}
